@@ -1989,7 +1989,7 @@ package engine
 //@ spec fun filedUnder(c procedureIndicator, h procedureIndicator) procedureIndicator = ite(c.name == atomIf && c.arity == 2, h, c)
 
 //@ func assertMerge
-//@   property C09
+//@   property C09 C10
 //@   requires vm != nil && merge != nil
 //@   nosafety
 //@   bind added, cerr = compile#1
